@@ -315,6 +315,21 @@ func vLower(s string) string {
 	return string(b)
 }
 
+// every second letter upper case, the others lower case
+func vMixedCase(s string) string {
+	b := []byte(vLower(s))
+	n := 0
+	for i := range b {
+		if b[i] >= 'a' && b[i] <= 'z' {
+			if n%2 == 1 {
+				b[i] -= 32
+			}
+			n++
+		}
+	}
+	return string(b)
+}
+
 // the same canonical text as the token stream the lexer yields for it,
 // through the real scanner, parser and compiler
 func VerifHarness_C09_assembler() {
@@ -350,7 +365,10 @@ func VerifHarness_C09_assembler() {
 		if !legacy {
 			name += "." + vModNamesUpper[c.OpMode]
 		}
-		if lower {
+		if lower && signedA {
+			// letter case may also change inside a word: mOv.aB
+			name = vMixedCase(name)
+		} else if lower {
 			name = vLower(name)
 		}
 		t = append(t, tText(name), tSym(vModeNames[c.AMode]))
